@@ -5,6 +5,11 @@ ROOT = os.path.dirname(os.path.dirname(os.path.abspath(__file__)))
 ALL = ["C%02d" % i for i in range(1, 21)]
 
 CHECKS = {
+ "C20": dict(
+   technique="TLA+ transcription of the TOML writer and parser over character sequences with RoundTrips/CommentInert; TLC-enumerated tables over 22 value classes and all short raw contents replayed into the real toml package (write, insert trivia, parse, DeepEqual; parse under recover)",
+   category="model_checking",
+   text="Exhaustive over the bounded table space (value classes covering strings with #,=,[ ], blanks, digit strings, booleans, ints incl. MaxInt64, fractional/integral/tiny/huge floats; empty sections; all 7 writer sections in the thorough tier) x 6 trivia variants, and over all contents of <= 3 characters from 11 character classes with 3 prefixes for the no-crash clause; the specification's own parser is additionally compared with the real parser on every raw content.",
+   note="Float classes are identified with the text strconv.FormatFloat produces for their representative; reflect.DeepEqual is the observation."),
  "C16": dict(
    technique="TLA+ BigNum library (self-tested) + BigIntApi specification of every exported 128/256-bit operation; real calls of bigint.c on TLC-enumerated limb-boundary operand patterns and seeded random operands are logged and validated by TLC (division checked by q*b+r=a)",
    category="model_checking",
